@@ -85,6 +85,7 @@ type c15World struct {
 	spell  map[string]c15Signer
 	strs   map[string]uint64 // opaque string ids (ip, keybase)
 	strtab []string
+	burnSeq int
 }
 
 func c15ParamsKeeper(e *Env) paramskeeper.Keeper {
@@ -343,6 +344,8 @@ func (w *c15World) opCoq(o c15Op) string {
 		return fmt.Sprintf("(ORemoveClaimer %s %s %s)", o.Sg.coq(), cBool(o.VB), o.ClSg.coq())
 	case "Donate":
 		return fmt.Sprintf("(ODonate %s %s)", cN(uint64(o.From)), cZ(o.Value))
+	case "Burn":
+		return fmt.Sprintf("(OBurn %s)", o.Sg.coq())
 	}
 	panic("C15: unknown op " + o.Kind)
 }
@@ -371,6 +374,27 @@ func (w *c15World) exec(o c15Op) string {
 		}
 		return e.Run(&banktypes.MsgSend{FromAddress: w.addrs[o.From].String(), ToAddress: w.addrs[c15Escrow].String(),
 			Amount: sdk.Coins{sdk.Coin{Denom: c15Denom, Amount: sdk.NewInt(o.Value)}}}).Out
+	case "Burn":
+		// a reward block strikes the prover for a contract whose window it missed: a file that lists the prover with a
+		// stale proof record is planted, then the keeper's own reward walk (ManageRewards, what BeginBlock runs every
+		// CheckWindow blocks) removes the prover from it and calls burnContract.  Nothing else is due in this world
+		// (no gauges, no other files).
+		w.burnSeq++
+		k := e.App.StorageKeeper
+		merkle := []byte(fmt.Sprintf("missed-contract-%d", w.burnSeq))
+		owner := w.addrs[1].String()
+		pf := storagetypes.FileProof{Prover: o.Creator, Merkle: merkle, Owner: owner, Start: 1, LastProven: 1, ChunkToProve: 0}
+		cctx, write := e.Ctx.WithBlockHeight(1_000_000).CacheContext()
+		if pn := Guard(func() {
+			k.SetFile(cctx, storagetypes.UnifiedFile{Merkle: merkle, Owner: owner, Start: 1, Expires: 1 << 40, FileSize: 1024, ProofInterval: 50, ProofType: 0,
+				Proofs: []string{string(storagetypes.ProofKey(o.Creator, merkle, owner, 1))}, MaxProofs: 3, Note: "{}"})
+			k.SetProof(cctx, pf)
+			k.ManageRewards(cctx)
+		}); pn != "" {
+			return OutPanic
+		}
+		write()
+		return OutOk
 	case "SetPrice":
 		// the governance path: the params module's proposal handler on a cache context
 		// (x/gov executes a passed proposal that way and writes only on success)
@@ -596,7 +620,7 @@ func (h *c15Hist) step(o c15Op) error {
 			keys[c.Key] = true
 		}
 		for k := range keys {
-			own := o.VB && k == o.Sg && kind != "SetPrice" && kind != "Donate"
+			own := o.VB && k == o.Sg && kind != "SetPrice" && kind != "Donate" // (for "Burn": the struck prover's own record)
 			a0, h0 := pre.coll(k)
 			a1, h1 := post.coll(k)
 			if (a0 != a1 || h0 != h1) && !(own && money) {
@@ -618,6 +642,8 @@ func (h *c15Hist) step(o c15Op) error {
 				want.Space = o.Space
 			case "AddClaimer":
 				want.Claimers = append(append([]c15Signer{}, p0.Claimers...), o.ClSg)
+			case "Burn":
+				want.Burned = p0.Burned + 1
 			case "RemoveClaimer":
 				want.Claimers = nil
 				for _, c := range p0.Claimers {
@@ -630,7 +656,11 @@ func (h *c15Hist) step(o c15Op) error {
 				h.finding("C15/provmsgs/own-record/"+kind, "the signer's provider record changed in more than the field the message names")
 			}
 		}
-		if out == OutOk && kind != "Init" && kind != "SetPrice" && kind != "Donate" && pre.prov(o.Sg) == nil {
+		// a strike leaves the provider registered: it can still shut down and claim what it locked
+		if kind == "Burn" && pre.prov(o.Sg) != nil && post.prov(o.Sg) == nil {
+			h.finding("C15/strike/provider-record-removed", fmt.Sprintf("the reward block's strike removed the provider record of %v while its collateral stays recorded: it can no longer shut down", o.Sg))
+		}
+		if out == OutOk && kind != "Init" && kind != "SetPrice" && kind != "Donate" && kind != "Burn" && pre.prov(o.Sg) == nil {
 			h.finding("C15/provmsgs/no-record/"+kind, "a provider-management message succeeded for a spelling without a provider record")
 		}
 	}
@@ -762,11 +792,13 @@ func (h *c15Hist) directedOp(p *PRNG, last *c15Op, provHeavy bool) *c15Op {
 		return nil
 	}
 	pr := obs.knownProvs()[p.Intn(len(obs.knownProvs()))]
-	sel := p.Intn(7)
+	sel := p.Intn(9)
 	if provHeavy {
-		sel = PickOne(p, []int{3, 4, 4, 4, 5, 5, 6, 6, 6, 2, 0})
+		sel = PickOne(p, []int{3, 4, 4, 4, 5, 5, 6, 6, 6, 2, 0, 7})
 	}
 	switch sel {
+	case 7, 8: // a reward block strikes the provider for a missed window
+		return &c15Op{Kind: "Burn", Creator: Spell(w.addrs[pr.Key.ID], pr.Key.Up), Sg: pr.Key, VB: true}
 	case 0: // shutdown by the owner
 		return &c15Op{Kind: "Shutdown", Creator: Spell(w.addrs[pr.Key.ID], pr.Key.Up), Sg: pr.Key, VB: true}
 	case 1: // shutdown by the same account under the other spelling
@@ -1036,6 +1068,19 @@ func (h *c15Hist) scripted() error {
 		func() error { return h.step(mk("Init", 5, false)) },     // a module account (no key in reality) registers ...
 		func() error { return h.step(mk("Shutdown", 5, false)) }, // ... and cannot be refunded: blocked recipient
 		func() error { return h.step(c15Op{Kind: "Donate", Sg: c15Signer{c15BadSg, false}, From: 1, Value: 1}) },
+		// a provider that keeps missing its windows is struck by reward block after reward block: it stays registered,
+		// its collateral stays recorded, it cannot register a second time and gets back exactly what it locked
+		func() error { return top(4, 1_000) },
+		func() error { return h.step(mk("Init", 4, false)) },
+		func() error { return h.step(mk("Burn", 4, false)) },
+		func() error { return h.step(mk("Burn", 4, false)) },
+		func() error { return h.step(mk("Burn", 4, false)) },
+		func() error { return h.step(mk("Burn", 4, false)) },
+		func() error { return h.step(mk("Burn", 4, true)) }, // a prover string that is no provider: skipped
+		func() error { return h.step(price(7)) },
+		func() error { return h.step(mk("Init", 4, false)) },
+		func() error { return h.step(mk("Shutdown", 4, false)) },
+		func() error { return h.step(mk("Shutdown", 4, false)) },
 	}
 	for _, f := range steps {
 		if err := f(); err != nil {
